@@ -314,7 +314,9 @@ func VerifC05Shared(spec VerifC05SharedSpec) VerifC05SharedObs {
 	if timeout <= 0 || timeout > 120 {
 		timeout = 15
 	}
-	watchdog := time.After(time.Duration(timeout) * time.Second)
+	dog := VerifNewDog(timeout)
+	defer dog.Stop()
+	watchdog := dog.C
 	fired := false
 	for b := range returned {
 		if !fired {
@@ -338,12 +340,14 @@ func VerifC05Shared(spec VerifC05SharedSpec) VerifC05SharedObs {
 		runner.closeSend()
 		waited := make(chan struct{})
 		go func() { _ = runner.waitForResponses(); close(waited) }()
+		wdog := VerifNewDog(10)
 		select {
 		case <-waited:
 			obs.Wait = "returned"
-		case <-time.After(10 * time.Second):
+		case <-wdog.C:
 			obs.Wait = "hang"
 		}
+		wdog.Stop()
 	}
 	obs.Elapsed = time.Since(t0).Milliseconds()
 	clientCancel()
